@@ -30,6 +30,27 @@ CLAIMED = {
  "C20": ("CrossHair (z3) symbolic execution of the real utils front ends and click callbacks with the core workers replaced by recorders; the sys.exit expression of `mappyfile validate` translated from the AST to SMT (z3 Int)",
          "Bounded symbolic execution + SMT lemma: open/load/loads hand the core the same symbolic text and options; dumps/dump/save hand the printer the same seven options and return/write the same string; `format` == save(open(IN,...), OUT, decoded options); `schema` writes the sorted JSON of get_versioned_schema(version); `validate` echoes one line per message and exits with e(problems) where problems counts messages and unparseable files (<= 3 files, <= 4 messages each), and for every n in [0, 2^40) the status byte of e(n) is 0 iff n == 0 and equals n when n <= 255.",
          "Recorders stand for Parser.parse / MapfileToDict / PrettyPrinter / codecs.open / click.echo / glob. UTF-8 codec fidelity through real files and the CLI as an OS process are outside (only counterexample replays run the real CLI).", "§4 C20"),
+ "C01": ("Template-symbolic pipeline under CrossHair (z3): the real scanner runs concretely on a skeleton, hole tokens get symbolic values of the same lexical class, the real Parser.parse loop, LALR tables, transformer and printer run symbolically; printed lines vs witness rendering, re-parse, second pass; witness base case through the public API",
+         "Bounded symbolic execution: 3 structural skeletons + one schema-generated skeleton per object type (every simple keyword slot, string slots as symbolic holes): for every hole content of the class the printed lines are the witness rendering with the values substituted, the printed token stream parses back to the same content, and a second formatting pass gives the same lines.",
+         "Hole classes: 2 (quick) / 4 (thorough) code points 32..0x2FFF without quotes/backslash, not starting with '#', not looking like an expression in multi-alternative keywords, not an enumerated word; numbers and enum words concrete. Substitution of token values is justified by the scanner lemmas of C05. Known finding KF-C01-TRAILING-BACKSLASH is outside the hole class.", "§4 C01"),
+ "C02": ("Template-symbolic pipeline under CrossHair (z3): the real scanner runs concretely on a skeleton, hole tokens get symbolic values of the same lexical class, the real Parser.parse loop, LALR tables, transformer and printer run symbolically; complete dict vs an expected structure committed in the check (docs/transformer.rst)",
+         "Bounded symbolic execution: 4 structural skeletons (types, plural lists / singletons, repeated keywords, duplicate keys, key-value blocks, CONFIG, PROJECTION, POINTS x1/x2, PATTERN, several roots, SYMBOLSET, bindings, hex colours, booleans, numbers): the whole dictionary, key order included, equals the committed expectation with the symbolic contents exactly at their places.",
+         "String contents / attribute names symbolic (2 / 4 code points); numeric, boolean and hex-colour tokens concrete. The symbolic block-nesting family over the LALR automaton is C19's.", "§4 C02"),
+ "C04": ("Template-symbolic pipeline under CrossHair (z3): the real scanner runs concretely on a skeleton, hole tokens get symbolic values of the same lexical class, the real Parser.parse loop, LALR tables, transformer and printer run symbolically on already formatted skeletons under several formatter option sets; Quoter projections by plain CrossHair",
+         "Bounded symbolic execution: for 3 skeletons x 4 (quick) / 6 (thorough) option sets, print(parse(formatted)) == formatted line for line for every hole content, second parse same content; escape_quotes / standardise_quotes idempotent on all strings of <= 4 / 6 code points.",
+         "Same hole classes as C01. Determinism of repeated printer runs is asserted in C16-JOIN.", "§4 C04"),
+ "C08": ("Template-symbolic pipeline under CrossHair (z3): the real scanner runs concretely on a skeleton, hole tokens get symbolic values of the same lexical class, the real Parser.parse loop, LALR tables, transformer and printer run symbolically with symbolic token positions; error locations through C07's harnesses",
+         "Bounded symbolic execution: 33 tokens of a skeleton covering object blocks, simple / multi-valued attributes, repeated keys, CONFIG, PROJECTION, key-value blocks, POINTS x2, PATTERN, bindings and two roots get free symbolic (line, column); every recorded __position__ entry is the position of its keyword token, value positions in source order; message locations (keyword's, or block opener's for object-level errors) at symbolic list indices.",
+         "Outside: lark's own line counter (tabs, CRLF, multi-line strings) - third-party scanner internals, trusted.", "§4 C08"),
+ "C10": ("CrossHair (z3) on the real expression string builders (structural induction per rule; `expression` over all balanced operands up to a bound vs an explicit group counter) + Template-symbolic pipeline under CrossHair (z3): the real scanner runs concretely on a skeleton, hole tokens get symbolic values of the same lexical class, the real Parser.parse loop, LALR tables, transformer and printer run symbolically on expression skeletons vs committed normal forms",
+         "Bounded symbolic execution: every builder keeps operands verbatim and in order with canonical AND/OR/NOT; the `expression` rule yields exactly one group containing the operand for every balanced operand over ( ) a of length <= 8 / 10 and over ( ) a \" of length <= 6 / 8; 11 expressions in FILTER / GROUP / EXPRESSION / TEXT / GEOMTRANSFORM positions with symbolic names and strings equal the committed normal forms, are printed verbatim and re-read to the same strings.",
+         "Precedence/associativity over all operator pairs on the LALR table is argued from the grammar ladder and exercised by the skeletons; the E-LALR precedence queries of DESIGN §2.4 are not part of the registered check.", "§4 C10"),
+ "C13": ("Template-symbolic pipeline under CrossHair (z3): the real scanner runs concretely on a skeleton, hole tokens get symbolic values of the same lexical class, the real Parser.parse loop, LALR tables, transformer and printer run symbolically: four real parser/transformer configurations (position x comments) on one parse input with symbolic string contents and comment texts",
+         "Bounded symbolic execution: for 2 skeletons, plain / position / comments / both agree after stripping hidden keys (keys, order, values, types); positions are never printed; the comment configurations print exactly the plain lines plus the comment texts at the witness's line structure.",
+         "Through open/load: same core call (C20). 2 code points per hole / comment.", "§4 C13"),
+ "C14": ("Template-symbolic pipeline under CrossHair (z3): the real scanner runs concretely on a skeleton, hole tokens get symbolic values of the same lexical class, the real Parser.parse loop, LALR tables, transformer and printer run symbolically with symbolic comment texts through the real lexer callbacks, _assign_comments, CommentsTransformer and printer; full line list vs committed expectation",
+         "Bounded symbolic execution: 12 comments (# and /* */) at the documented placements (file header, end of a simple keyword line, above object / METADATA / VALIDATION openers) with symbolic text: each is printed verbatim, exactly once, trailing comments on their keyword's line, block comments directly above their opener; content equals a plain load.",
+         "Comment line numbers are those of the concrete skeleton. Placements the property marks as migrating/vanishing are not asserted.", "§4 C14"),
 }
 NA = {}
 
